@@ -56,7 +56,8 @@ class DefaultDeviceHandler:
     def __init__(self, device_params=None, ignore_errors=None):
         self.device_params = device_params
         self.capabilities = []
-        self._EXEMPT_ERRORS = ignore_errors or self._EXEMPT_ERRORS
+        # The user's patterns are exempt in addition to the device profile's own.
+        self._EXEMPT_ERRORS = list(self._EXEMPT_ERRORS) + list(ignore_errors or [])
         # Turn all exempt errors into lower case, since we don't want those comparisons
         # to be case sensitive later on. Sort them into exact match, wildcard start,
         # wildcard end, and full wildcard categories, depending on whether they start
